@@ -76,9 +76,11 @@ int main(int argc, char **argv)
 		xmp_context c = xmp_create_context();
 		struct context_data *ctx = (struct context_data *)c;
 		struct xmp_module_info mi; struct xmp_frame_info fi;
-		int i, n, outside;
+		int i, n, outside, force = 0;
+		char *path_ = path;
 		path[strcspn(path, "\n")] = 0;
-		if (xmp_load_module(c, path) < 0) { puts("LOADFAIL"); puts("ENDPLAY"); xmp_free_context(c); continue; }
+		if (path[0] == '+') { force = 1; path_ = path + 1; }	/* play even if the loaded events leave the vocabulary */
+		if (xmp_load_module(c, path_) < 0) { puts("LOADFAIL"); puts("ENDPLAY"); xmp_free_context(c); continue; }
 		xmp_get_module_info(c, &mi);
 		printf("HDR %d %d %d %d %d %a %a %d |", mi.mod->len, mi.mod->pat, mi.mod->spd, mi.mod->bpm, mi.mod->rst, ctx->m.time_factor, ctx->m.rrate, mi.num_sequences);
 		for (i = 0; i < mi.mod->len; i++) printf(" %d", mi.mod->xxo[i]);
@@ -89,7 +91,7 @@ int main(int argc, char **argv)
 		for (i = 0; i < mi.num_sequences; i++) printf("SEQ %d %d %d\n", i, mi.seq_data[i].entry_point, mi.seq_data[i].duration);
 		for (i = 0; i < mi.mod->len; i++) printf("ORD %d %d\n", i, ctx->m.xxo_info[i].time);
 		libxmp_set_random(&ctx->rng, 1);
-		if (!outside && xmp_start_player(c, 8000, XMP_FORMAT_MONO | XMP_FORMAT_8BIT) == 0) {
+		if ((force || !outside) && xmp_start_player(c, 8000, XMP_FORMAT_MONO | XMP_FORMAT_8BIT) == 0) {
 			for (n = 0; n < maxframes; n++) {
 				if (xmp_play_frame(c) < 0) break;
 				xmp_get_frame_info(c, &fi);
